@@ -6,7 +6,12 @@
 package network
 
 import (
+	"context"
+	"crypto/ecdsa"
+	"crypto/elliptic"
+	"crypto/rand"
 	"crypto/x509"
+	"time"
 	"encoding/json"
 	"fmt"
 	"os"
@@ -16,7 +21,11 @@ import (
 
 	ssi "github.com/nuts-foundation/go-did"
 	"github.com/nuts-foundation/go-did/did"
+	"github.com/nuts-foundation/nuts-node/audit"
 	"github.com/nuts-foundation/nuts-node/core"
+	nutsCrypto "github.com/nuts-foundation/nuts-node/crypto"
+	"github.com/nuts-foundation/nuts-node/crypto/hash"
+	"github.com/nuts-foundation/nuts-node/network/dag"
 	"github.com/nuts-foundation/nuts-node/network/transport"
 	"github.com/nuts-foundation/nuts-node/network/transport/grpc"
 	"github.com/nuts-foundation/nuts-node/test/io"
@@ -87,6 +96,63 @@ func TestVerifC15Configure(t *testing.T) {
 				fmt.Fprintln(impl, line)
 				ctrl.Finish()
 			}
+		}
+	}
+	vCreateCases(t, ops, impl)
+}
+
+// the REAL Network.CreateTransaction with participant lists whose key agreement keys resolve / are deactivated / are
+// unknown: a transaction requested with participants either fails or carries a PAL header with one entry per participant
+func vCreateCases(t *testing.T, ops, impl *os.File) {
+	key, _ := ecdsa.GenerateKey(elliptic.P256(), rand.Reader)
+	cases := [][]string{{}, {"ok"}, {"ok", "ok"}, {"deactivated"}, {"deactivated", "deactivated"}, {"ok", "deactivated"}, {"deactivated", "ok"},
+		{"notfound"}, {"ok", "notfound"}, {"deactivated", "deactivated", "deactivated"}, {"ok", "ok", "deactivated"}, {"badkey"}}
+	for _, withDID := range []bool{true, false} {
+		for _, parts := range cases {
+			ctrl := gomock.NewController(t)
+			cxt := createNetwork(t, ctrl)
+			_, _, _ = cxt.keyStore.New(audit.TestContext(), nutsCrypto.StringNamingFunc("signing-key"))
+			if withDID {
+				cxt.network.nodeDID = did.MustParseDID("did:nuts:self")
+			}
+			cxt.state.EXPECT().Head(gomock.Any()).AnyTimes().Return(hash.EmptyHash(), nil)
+			var created dag.Transaction
+			cxt.state.EXPECT().Add(gomock.Any(), gomock.Any(), gomock.Any()).AnyTimes().DoAndReturn(func(_ context.Context, tx dag.Transaction, _ []byte) error {
+				created = tx
+				return nil
+			})
+			var dids []did.DID
+			situation := map[string]string{}
+			for i, p := range parts {
+				d := did.MustParseDID(fmt.Sprintf("did:nuts:p%d", i))
+				dids = append(dids, d)
+				situation[d.String()] = p
+			}
+			cxt.keyResolver.EXPECT().ResolveKey(gomock.Any(), gomock.Any(), resolver.KeyAgreement).AnyTimes().DoAndReturn(
+				func(id did.DID, _ *time.Time, _ resolver.RelationType) (string, interface{}, error) {
+					switch situation[id.String()] {
+					case "ok":
+						return id.String() + "#k", key.Public(), nil
+					case "deactivated":
+						return "", nil, resolver.ErrDeactivated
+					case "badkey":
+						return id.String() + "#k", "not an EC key", nil
+					}
+					return "", nil, resolver.ErrKeyNotFound
+				})
+			tpl := TransactionTemplate("application/did+json", []byte("private payload of the create leg"), "signing-key")
+			if len(dids) > 0 {
+				tpl = tpl.WithPrivate(dids)
+			}
+			_, err := cxt.network.CreateTransaction(audit.TestContext(), tpl)
+			op, _ := json.Marshal(map[string]interface{}{"op": "createtx", "parts": parts, "nodedid": withDID})
+			fmt.Fprintln(ops, string(op))
+			if err != nil || created == nil {
+				fmt.Fprintln(impl, "createtx err")
+			} else {
+				fmt.Fprintf(impl, "createtx ok pal=%d\n", len(created.PAL()))
+			}
+			ctrl.Finish()
 		}
 	}
 }
